@@ -168,7 +168,11 @@ def stack_check(prog, sub_targets):
                     elif k_ >= h - proto_h:
                         local.append(f"line {ln}: frame_dig {k_} reads above the top of the stack (frame holds {h - proto_h} value(s))")
                 nh = h + 1
-                ntypes = ntypes + ["a"]
+                # a non-negative frame index addresses the k-th value pushed since `proto` (types are tracked from the routine entry)
+                cell = None
+                if m == "frame_dig" and proto is not None and proto_h == 0 and 0 <= int(im[0]) < len(ntypes) and len(ntypes) == h:
+                    cell = ntypes[int(im[0])]
+                ntypes = ntypes + [cell or "a"]
             elif m in ("cover", "uncover"):
                 need(int(im[0]) + 1)
                 k = int(im[0]) + 1
@@ -185,8 +189,14 @@ def stack_check(prog, sub_targets):
             elif m == "bury":
                 need(int(im[0]) + 1 if int(im[0]) > 0 else 1); nh = h - 1; ntypes = ["a"] * max(0, len(ntypes) - 1)
             elif m == "frame_bury":
-                need(1); nh = h - 1; ntypes = ["a"] * max(0, len(ntypes) - 1)
+                need(1); nh = h - 1
                 k_ = int(im[0])
+                if proto is not None and proto_h == 0 and len(ntypes) == h and 0 <= k_ < len(ntypes) - 1:
+                    top = ntypes[-1]
+                    ntypes = ntypes[:-1]
+                    ntypes[k_] = top       # the cell now holds the buried value's type
+                else:
+                    ntypes = ["a"] * max(0, len(ntypes) - 1)
                 if proto is None:
                     local.append(f"line {ln}: frame_bury without proto")
                 elif k_ < -proto[0]:
